@@ -115,7 +115,8 @@ def body_quoting(e):
     if '"' in e:
         return (True, "pre-invalid")
     s = Wb.create_strong_etag(e)
-    ok = Wb.extract_strong_etag(s) == e and s[:1] == '"' and s[-1:] == '"' and len(s) == len(e) + 2
+    # (operand order matters: CrossHair 0.0.110 mis-evaluates `stripped == symbolic` but not `symbolic == stripped`)
+    ok = e == Wb.extract_strong_etag(s) and s[:1] == '"' and s[-1:] == '"' and len(s) == len(e) + 2
     ok = ok and Wb.extract_strong_etag(None) is None
     return (ok, "roundtrip")
 
